@@ -687,6 +687,7 @@ const MODS: &[ModSpec] = &[
     ModSpec { ns: "Buffer", path: "miniz_oxide/src/deflate/buffer.rs", fns: &["update_hash"] },
     ModSpec { ns: "InflMod", path: "miniz_oxide/src/inflate/mod.rs", fns: &[] },
     ModSpec { ns: "InflCore", path: "miniz_oxide/src/inflate/core.rs", fns: &["num_extra_bits_for_distance_code", "validate_zlib_header", "end_of_input", "State::is_failure"] },
+    ModSpec { ns: "OutBuf", path: "miniz_oxide/src/inflate/output_buffer.rs", fns: &[] },
     ModSpec { ns: "DeflMod", path: "miniz_oxide/src/deflate/mod.rs", fns: &["From<CompressionLevel> for u8::from"] },
     ModSpec { ns: "DeflCore", path: "miniz_oxide/src/deflate/core.rs", fns: &["TDEFLFlush::new", "From<MZFlush> for TDEFLFlush::from", "change_window_bits_from_format", "limit_level_by_window_bits", "probes_from_flags", "create_comp_flags_from_zip_params", "window_bits_from_flags", "ParamsOxide::max_match_dist"] },
     ModSpec { ns: "Zlib", path: "miniz_oxide/src/deflate/zlib.rs", fns: &["add_fcheck", "zlib_level_from_flags", "header_from_level", "header_from_flags"] },
@@ -879,6 +880,30 @@ fn main() {
         }
         // fragments
         let mut frag = String::new();
+        if ns == "OutBuf" {
+            // OutputBuffer::from_slice_pos_and_max: the statements before the struct literal, returning `max`
+            match fns.iter().find(|f| f.key == "OutputBuffer<'a>::from_slice_pos_and_max" || f.key.ends_with("::from_slice_pos_and_max")) {
+                None => errors.push(format!("{}: from_slice_pos_and_max not found", spec.path)),
+                Some(f) => {
+                    let mut tr = Tr::new(&g, ns);
+                    tr.bind("position", Ty::U(64)); tr.bind("max_count", Ty::U(64));
+                    let n = f.block.stmts.len();
+                    let mut body = vec![];
+                    let is_struct_tail = matches!(f.block.stmts.last(), Some(Stmt::Expr(Expr::Struct(_), None)));
+                    if !is_struct_tail { errors.push(format!("{}: from_slice_pos_and_max: tail is not a struct literal", spec.path)); }
+                    else {
+                        match tr.stmts(&f.block.stmts[..n - 1], &Ty::U(64), 2, &mut body, false) {
+                            Ok(_) => {
+                                body.push("  return max".into());
+                                defs.push(("Gen.OutBuf.window_end".into(), format!("-- fragment: `max` computed by OutputBuffer::from_slice_pos_and_max ({}:{})\ndef Gen.OutBuf.window_end (slice_len : Int) (position : Int) (max_count : Int) : Int := Id.run do\n{}\n", spec.path, f.span.start().line, body.join("\n"))));
+                                add_manifest(spec.path, "fragment window_end", f.span, &f.block.to_token_stream().to_string(), &mut manifest);
+                            }
+                            Err(e) => errors.push(format!("{}: from_slice_pos_and_max: {}", spec.path, e)),
+                        }
+                    }
+                }
+            }
+        }
         if ns == "InflCore" { fragment_geometry(&g, &fns, spec, &mut frag, &mut errors, &mut manifest, &mut add_manifest); if !frag.is_empty() { defs.push(("Gen.InflCore.geometry_rejects".into(), frag.clone())); } }
         if ns == "DeflCore" { fragment_routing(&g, &fns, spec, &mut frag, &mut errors, &mut manifest, &mut add_manifest); if !frag.is_empty() { defs.push(("Gen.DeflCore.route".into(), frag.clone())); }
             structural_consts(&fns, spec, &mut defs, &mut errors);
